@@ -8,7 +8,7 @@ SPEC = {
     "agrees": "C11.agrees",
     "in_domain": "C11.in_domain",
     "model_prop": "fun k => implb (C11.in_domain k) (C11.model_prop k)",
-    "n_quick": 420,
+    "n_quick": 300,
     "n_thorough": 12000,
     "shard": 30,
     "rule": "see harness/props/c11.go: 30% trimResultsToRange/Limit on generated buffers, 15% Go time/TimeToIndex/IndexToTime/FileSize "
